@@ -122,7 +122,7 @@ macro_rules! scalar_rt {
     }};
 }
 
-// @vt prop=C33 tier=quick bound="one-column rows: Null and every i64" outside="multi-column rows (c33_two_rows_sequence)" timeout=600
+// @vt prop=C33 tier=quick bound="one-column rows: Null and every i64" outside="multi-column rows (c33_two_rows_sequence)" timeout=1800
 vt_proof! { unwind = 37; fn c33_rt_null_int() {
     let k: bool = kani::any();
     let v: Value<'static> = if k { Value::Null } else { Value::Int(kani::any()) };
@@ -131,7 +131,7 @@ vt_proof! { unwind = 37; fn c33_rt_null_int() {
     scalar_rt!(v, [0x01u8, 0x12u8, 0x14u8, 0x16u8]);
 }}
 
-// @vt prop=C33 tier=quick bound="one-column rows: every f64 bit pattern" outside="multi-column rows" timeout=600
+// @vt prop=C33 tier=quick bound="one-column rows: every f64 bit pattern" outside="multi-column rows" timeout=1800
 vt_proof! { unwind = 37; fn c33_rt_float() {
     let f: f64 = kani::any();
     kani::cover!(f < 0.0, "w:negative_float");
@@ -139,7 +139,7 @@ vt_proof! { unwind = 37; fn c33_rt_float() {
     scalar_rt!(Value::Float(f), [0x10u8, 0x13u8, 0x14u8, 0x15u8, 0x18u8, 0x19u8]);
 }}
 
-// @vt prop=C33 tier=quick bound="one-column rows: Uuid, MacAddr, Inet4, Inet6 with arbitrary bytes" outside="multi-column rows" timeout=600
+// @vt prop=C33 tier=quick bound="one-column rows: Uuid, MacAddr, Inet4, Inet6 with arbitrary bytes" outside="multi-column rows" timeout=1800
 vt_proof! { unwind = 37; fn c33_rt_addr() {
     let k: u8 = kani::any(); kani::assume(k < 4);
     let v: Value<'static> = match k { 0 => Value::Uuid(kani::any()), 1 => Value::MacAddr(kani::any()), 2 => Value::Inet4(kani::any()), _ => Value::Inet6(kani::any()) };
@@ -147,7 +147,7 @@ vt_proof! { unwind = 37; fn c33_rt_addr() {
     scalar_rt!(v, [0x40u8, 0x41u8, 0x42u8, 0x43u8]);
 }}
 
-// @vt prop=C33 tier=quick bound="one-column rows: TimestampTz, Interval, Enum, Decimal with arbitrary fields (i128 digits)" outside="multi-column rows" timeout=600
+// @vt prop=C33 tier=quick bound="one-column rows: TimestampTz, Interval, Enum, Decimal with arbitrary fields (i128 digits)" outside="multi-column rows" timeout=1800
 vt_proof! { unwind = 37; fn c33_rt_temporal_enum_decimal() {
     let k: u8 = kani::any(); kani::assume(k < 4);
     let v: Value<'static> = match k {
@@ -159,7 +159,7 @@ vt_proof! { unwind = 37; fn c33_rt_temporal_enum_decimal() {
     scalar_rt!(v, [0x33u8, 0x34u8, 0x63u8, 0x83u8]);
 }}
 
-// @vt prop=C33 tier=quick bound="one-column rows: Point, GeoBox, Circle with arbitrary f64 bit patterns" outside="multi-column rows" timeout=600
+// @vt prop=C33 tier=quick bound="one-column rows: Point, GeoBox, Circle with arbitrary f64 bit patterns" outside="multi-column rows" timeout=1800
 vt_proof! { unwind = 37; fn c33_rt_geo() {
     let k: u8 = kani::any(); kani::assume(k < 3);
     let v: Value<'static> = match k {
@@ -179,7 +179,7 @@ fn to_stack(buf: &Vec<u8>) -> ([u8; 40], usize) {
     (arr, n)
 }
 
-// @vt prop=C33 tier=quick bound="two rows in one buffer: [positive i64] then [any i64, Null]; then a read at end of buffer" outside="longer sequences; more than 2 columns; other variants in a sequence (every variant is decided singly in c33_rt_*)" timeout=900
+// @vt prop=C33 tier=quick bound="two rows in one buffer: [positive i64] then [any i64, Null]; then a read at end of buffer" outside="longer sequences; more than 2 columns; other variants in a sequence (every variant is decided singly in c33_rt_*)" timeout=1800
 vt_proof! { unwind = 37; fn c33_two_rows_sequence() {
     let x: i64 = kani::any(); kani::assume(x > 0);
     let row1 = [Value::Int(x)];
@@ -224,7 +224,7 @@ fn bytes_of<'a>(v: &'a Value<'static>) -> Option<(u8, &'a [u8])> {
     match v { Value::Blob(b) => Some((0, &b[..])), Value::Jsonb(b) => Some((1, &b[..])), Value::ToastPointer(b) => Some((2, &b[..])), Value::Text(s) => Some((3, s.as_bytes())), _ => None }
 }
 
-// @vt prop=C33 tier=quick bound="one-column rows holding Blob / Jsonb / ToastPointer / Text of length 0..=1 (all byte values; text ASCII)" outside="payloads longer than 1 byte (thorough: 3)" timeout=900 mem=16
+// @vt prop=C33 tier=quick bound="one-column rows holding Blob / Jsonb / ToastPointer / Text of length 0..=1 (all byte values; text ASCII)" outside="payloads longer than 1 byte (thorough: 3)" timeout=1800 mem=16
 vt_proof! { unwind = 37; fn c33_bytes_roundtrip_len1() {
     let data: [u8; 3] = kani::any();
     let k: u8 = kani::any(); kani::assume(k < 4);
@@ -271,7 +271,7 @@ fn bytes_rt(k: u8, data: &[u8; 3], n: usize) {
     core::mem::forget((buf, out, row));
 }
 
-// @vt prop=C33 tier=quick bound="one-column rows holding a Vector of 0..=2 f32 (all bit patterns)" outside="vectors longer than 2" timeout=900
+// @vt prop=C33 tier=quick bound="one-column rows holding a Vector of 0..=2 f32 (all bit patterns)" outside="vectors longer than 2" timeout=1800
 vt_proof! { unwind = 37; fn c33_vector_roundtrip() {
     let data: [f32; 2] = kani::any();
     let n: usize = kani::any(); kani::assume(n <= 2);
